@@ -15,15 +15,18 @@ TAIL = ["step idle", "step idle", "step idle", "step idle", "step tick:40", "ste
 class C09(Prop):
     id = "C09"
     title = "No event history or failing task takes the driver down"
-    lean_modules = ["NV.C09.Props", "NV.C09.Witness"]
-    theorems = ["NV.C09.judge_crash_clause", "NV.C09.judge_report_clause", "NV.C09.judge_exit_present",
-                "NV.C09.runFull_trext", "NV.C09.backend_total", "NV.C09.backend_total_prefix", "NV.C09.freed_conn_never_used_run",
+    lean_modules = ["NV.C09.Props", "NV.C09.Witness", "NV.C09.Bridge", "NV.C09.SpecNeg"]
+    theorems = ["NV.C09.backend_order_as_modelled", "NV.C09.error_handler_order_as_modelled",
+                "NV.C09.call_out_order_as_modelled", "NV.C09.sweep_order_as_modelled",
+                "NV.C09.remove_interactive_order_as_modelled", "NV.C09.user_command_order_as_modelled",
+                "NV.C09.connect_order_as_modelled", "NV.C09.judge_crash_clause", "NV.C09.judge_report_clause", "NV.C09.judge_exit_present", "NV.C09.judge_cycles_clause", "NV.C09.runFull_block",
+                "NV.C09.backend_total", "NV.C09.backend_total_prefix", "NV.C09.freed_conn_never_used_run",
                 "NV.C09.hooks_keep_invariant", "NV.C09.runHook_ok", "NV.C09.errorHandler_same", "NV.C09.cmh_flags",
                 "NV.C09.only_failing_hb_removed", "NV.C09.error_keeps_other_heart_beats",
                 "NV.C09.flags_clear_after_error", "NV.C09.pending_tasks_preserved",
                 "NV.C09.recover_preserves_pending", "NV.C09.callout_sweep_continues_after_error",
                 "NV.C09.freed_conn_never_used", "NV.C09.idle_tick_no_crash"]
-    witness_theorems = ["NV.C09.connect_error_releases_record"]
+    witness_theorems = ["NV.C09.connect_error_releases_record", "NV.C09.connect_refs_balanced"]
     consts = [("logCatches", "NV_LOG_CATCHES"), ("numConsts", "5")]
     const_headers = ["lib/efuns/options.h"]
     const_prelude = "#ifdef LOG_CATCHES\n#define NV_LOG_CATCHES 1\n#else\n#define NV_LOG_CATCHES 0\n#endif\n"
@@ -79,6 +82,96 @@ class C09(Prop):
         if not m:
             raise X.TieBroken("user_parser:MAX_VERB_BUFF", "cannot locate MAX_VERB_BUFF in simulate.c")
         verbbuf = int(m.group(1))
+        # ---- statement order of the recovery points / flag protocol, regenerated from the source ----
+        def body_of(src, header_rx):
+            m = re.search(header_rx, src)
+            if not m:
+                return None
+            i = src.index("{", m.end() - 1)
+            depth, j = 0, i
+            while j < len(src):
+                if src[j] == "{":
+                    depth += 1
+                elif src[j] == "}":
+                    depth -= 1
+                    if depth == 0:
+                        break
+                j += 1
+            b = src[i:j + 1]
+            b = re.sub(r"/\*.*?\*/", " ", b, flags=re.S)
+            b = re.sub(r"//[^\n]*", " ", b)
+            b = re.sub(r"#if 0.*?#endif", " ", b, flags=re.S)
+            return b
+
+        def order(body, pats):
+            hits = []
+            for name, rx in pats:
+                for m in re.finditer(rx, body):
+                    hits.append((m.start(), name))
+            return [n for _, n in sorted(hits)]
+
+        ec = open(os.path.join(E.REPO, "src/error_context.c")).read()
+        co = open(os.path.join(E.REPO, "lib/efuns/call_out.c")).read()
+        orders = {}
+        b = body_of(back, r"\nvoid backend \(\)\s*\{")
+        if b is None:
+            raise X.TieBroken("backend()", "cannot locate backend()")
+        orders["backendOrder"] = order(b, [
+            ("save_context", r"save_context\s*\(&econ\)"), ("setjmp", r"setjmp\s*\(econ\.context\)"),
+            ("initial_tick", r"startup_step = 1;\s*call_heart_beat\s*\(\)"),
+            ("console_user", r"init_console_user\s*\(0\)"), ("loop", r"while\s*\(1\)"),
+            ("destructed", r"remove_destructed_objects\s*\(\)"), ("grant_turns", r"iflags\s*\|=\s*HAS_CMD_TURN"),
+            ("poll", r"nb = do_comm_polling"), ("process_io", r"process_io\s*\(\)"),
+            ("commands", r"process_user_command\s*\(\)"), ("tick", r"if \((?:heart_beat_flag|HEART_BEAT_FLAG\(\))\)\s*call_heart_beat\s*\(\)"),
+            ("hook", r"verif_backend_cycle_hook\s*\(\)"), ("pop_context", r"pop_context\s*\(&econ\)")])
+        b = body_of(ec, r"\nvoid error_handler \(const char \*err\)\s*\{")
+        if b is None:
+            raise X.TieBroken("error_handler()", "cannot locate error_handler()")
+        b2 = b[b.index("if (in_error)"):]      # the part for errors outside a catch
+        orders["errorHandlerOrder"] = order(b2, [
+            ("test_in_error", r"if \(in_error\)"), ("in_error=1", r"in_error = 1;"), ("in_error=0", r"in_error = 0;"),
+            ("test_in_meh", r"if \(in_mudlib_error_handler\)"), ("in_meh=1", r"in_mudlib_error_handler = 1;"),
+            ("in_meh=0", r"in_mudlib_error_handler = 0;"), ("call_handler", r"mudlib_error_handler \(err, 0\)"),
+            ("hb_off", r"set_heart_beat \(current_heart_beat, 0\)"), ("cur_hb=0", r"current_heart_beat = 0;"),
+            ("longjmp", r"longjmp \(")])
+        b = body_of(co, r"\ncall_out \(\)\s*\{")
+        if b is None:
+            raise X.TieBroken("call_out()", "cannot locate call_out()")
+        orders["callOutOrder"] = order(b, [
+            ("save_context", r"save_context\s*\(&econ\)"), ("sweep_loop", r"while \(call_out_time < current_time\)"),
+            ("entry_loop", r"\bdo\b"), ("setjmp", r"setjmp\s*\(econ\.context\)"),
+            ("restore", r"restore_context\s*\(&econ\)"), ("apply", r"apply \(cop->function\.s"),
+            ("free_entry", r"free_called_call \(cop\);\s*cop = 0;\s*\}\s*\}"), ("pop_context", r"pop_context\s*\(&econ\)")])
+        b = body_of(back, r"\nstatic void look_for_objects_to_swap \(\)\s*\{")
+        if b is None:
+            raise X.TieBroken("look_for_objects_to_swap()", "cannot locate look_for_objects_to_swap()")
+        orders["sweepOrder"] = order(b, [
+            ("period_test", r"if \(current_time < next_time\)"), ("save_context", r"save_context\s*\(&econ\)"),
+            ("setjmp", r"setjmp\s*\(econ\.context\)"), ("walk", r"for \(ob = obj_list"),
+            ("reset", r"reset_object \(ob\)"), ("pop_context", r"pop_context\s*\(&econ\)")])
+        b = body_of(comm, r"\nvoid remove_interactive \(object_t \* ob, int dested\)\s*\{")
+        if b is None:
+            raise X.TieBroken("remove_interactive()", "cannot locate remove_interactive()")
+        orders["removeInteractiveOrder"] = order(b, [
+            ("test_closing", r"if \(ip->iflags & CLOSING\)"), ("set_closing", r"ip->iflags \|= CLOSING"),
+            ("net_dead", r"safe_apply \(APPLY_NET_DEAD"), ("shutdown", r"g_proceeding_shutdown\+\+"),
+            ("free", r"FREE \(ip\)"), ("clear_pointer", r"ob->interactive = 0;"),
+            ("clear_slot", r"all_users\[idx\] = 0;"), ("free_object", r"free_object \(ob, \"remove_interactive\"\)")])
+        b = body_of(comm, r"\nint process_user_command \(\)\s*\{")
+        if b is None:
+            raise X.TieBroken("process_user_command()", "cannot locate process_user_command()")
+        b2 = b[b.index("else if (call_function_interactive"):]   # the ordinary command path
+        orders["userCommandOrder"] = order(b2, [
+            ("process_input", r"apply \(APPLY_PROCESS_INPUT"), ("validate", r"VALIDATE_IP \(ip, command_giver\)"),
+            ("command", r"process_command \(tbuf, command_giver\)"), ("prompt", r"print_prompt \(ip\)")])
+        b = body_of(back, r"\nobject_t\* mudlib_connect\(int port, const char\* addr\)\s*\{")
+        if b is None:
+            raise X.TieBroken("mudlib_connect()", "cannot locate mudlib_connect()")
+        orders["connectOrder"] = order(b, [
+            ("add_ref_master", r"add_ref \(master_ob"), ("connect", r"safe_apply_master_ob \(APPLY_CONNECT"),
+            ("unsafe_connect", r"[^_]apply_master_ob \(APPLY_CONNECT"), ("rejected", r"return 0;"),
+            ("bind", r"ob->interactive = master_ob->interactive;"), ("clear_master", r"master_ob->interactive = 0;"),
+            ("free_master", r"free_object \(master_ob"), ("add_ref_user", r"add_ref \(ob")])
         # shape guards of the repaired code: the model mirrors these forms
         guards = [
             (r"if\s*\(\s*all_users\s*&&\s*all_users\s*\[\s*0\s*\]\s*\)\s*\n\s*flush_message", comm, "process_io:all_users guard"),
@@ -95,6 +188,9 @@ class C09(Prop):
         t += "/-- look_for_objects_to_swap period in seconds (literal) -/\ndef sweepPeriod : Nat := %d\n\n" % period
         t += "/-- MAX_VERB_BUFF of user_parser() (literal in simulate.c) -/\ndef maxVerbBuff : Nat := %d\n\n" % verbbuf
         t += "/-- ResetDuration of the verification configuration -/\ndef resetDuration : Nat := %d\n\n" % RESET_DURATION
+        for name, lst in orders.items():
+            t += "/-- statement order regenerated from the source (see props/c09.py gen_extra) -/\ndef %s : List String :=\n  [%s]\n\n" % (
+                name, ", ".join('"%s"' % x for x in lst))
         for name, v in flags:
             ident = re.sub(r"[^A-Za-z0-9]", "_", name)
             t += "/-- source shape: %s (1 = present) -/\ndef guard_%s : Nat := %d\n\n" % (name, ident, v)
@@ -169,6 +265,34 @@ class C09(Prop):
                                               "step idle", "step idle"])
         mk("connect-rejected", ["mode net", "script k1 connect rej", "step conn:c1", "step conn:c2", "step send:c2:a/"])
         return B
+
+    # ---- oracle self-test: traces the compiled judge must reject ------------------
+    def extra_checks(self, ctx, tier, rng):
+        head = ["load reg /c09/reg", "mode net", "step conn:c1", "step send:c1:a/b/", "step idle", "run", "--"]
+        tail = ["exit loop", 'hbs ""', "refs 0 0", "slots 1", "slotidx 1"]
+        pre = ["start", "cycle 1", "t connect k1", "t logon u1", "cycle 2"]
+        bad = {
+            "line-never-served": pre + ["t input u1 a", "t cmd u1 a", "cycle 3"] + tail,
+            "line-served-twice": pre + ["t input u1 a", "t cmd u1 a", "cycle 3", "t input u1 a", "t cmd u1 a", "cycle 4",
+                                        "t input u1 b", "t cmd u1 b"] + tail,
+            "lines-out-of-order": pre + ["t input u1 b", "t cmd u1 b", "cycle 3", "t input u1 a", "t cmd u1 a"] + tail,
+            "wrong-command-run": pre + ["t input u1 a", "t cmd u1 zzz", "cycle 3", "t input u1 b", "t cmd u1 b"] + tail,
+            "refs-unbalanced": pre + ["t input u1 a", "t cmd u1 a", "cycle 3", "t input u1 b", "t cmd u1 b",
+                                      "exit loop", 'hbs ""', "refs 1 0", "slots 1", "slotidx 1"],
+            "sanitizer-line": pre + ["sanitizer ERROR: AddressSanitizer: heap-use-after-free"] + tail,
+        }
+        good = pre + ["t input u1 a", "t cmd u1 a", "cycle 3", "t input u1 b", "t cmd u1 b"] + tail
+        cases = [E.Case("neg-" + k, head + v) for k, v in bad.items()] + [E.Case("pos-good", head + good)]
+        out = E.nvdrive(self.id, "judge", E.cases_text(cases))
+        problems = []
+        for k in bad:
+            if out.get("neg-" + k, ["ok"]) == ["ok"]:
+                problems.append({"kind": "obligation-broken", "name": "oracle self-test: " + k,
+                                 "detail": "the judge accepted a trace it must reject"})
+        if out.get("pos-good") != ["ok"]:
+            problems.append({"kind": "obligation-broken", "name": "oracle self-test: good trace",
+                             "detail": "the judge rejected a correct trace: %s" % out.get("pos-good")})
+        return problems
 
     # ---- random histories -------------------------------------------------------
     def gen_ops(self, rng, me, nusers, nobjs, allow_err=True):
